@@ -1,6 +1,7 @@
 import AITB.Model.Proto
 import AITB.Model.Factored
 import Driver.C14b
+import Driver.C14c
 import AITB.Model.FactoredAlg
 open AITB AITB.Factored
 
@@ -184,7 +185,7 @@ def handle (toks : List String) : String :=
     | "misc" :: rest => P.run misc rest
     | "skipidx" :: rest => P.run skipidx rest
     | "misc2" :: rest => P.run misc2 rest
-    | _ => DrvC14b.handle toks
+    | _ => (DrvC14b.handle toks).orElse (fun _ => DrvC14c.handle toks)
   r.getD "bad-op"
 
 end DrvC14
